@@ -10,7 +10,11 @@ sd = os.path.join(HERE, "seeded")
 for d in sorted(os.listdir(sd)) if os.path.isdir(sd) else []:
     pth = os.path.join(sd, d, "patch.diff")
     if os.path.exists(pth):
-        idx.append({"patch": os.path.join("..", "seeded", d, "patch.diff"), "checks": [re.match(r"C\d+", d).group(0)], "what": "seeded change for %s" % d})
+        checks = [re.match(r"C\d+", d).group(0)]
+        cj = os.path.join(sd, d, "checks.json")   # optional: the seed lies outside its property's anchors and is decided by another property's check
+        if os.path.exists(cj):
+            checks = json.load(open(cj))["checks"]
+        idx.append({"patch": os.path.join("..", "seeded", d, "patch.diff"), "checks": checks, "what": "seeded change for %s" % d})
 bad = 0
 for m in idx:
     if flt and flt not in m["patch"]:
